@@ -524,9 +524,15 @@ async fn check_pred(ds: &Dataset, st: &State, fam: &str, index: &str, history: &
     let (with, without) = (with.unwrap(), without.unwrap());
     if with != without {
         let (only_with, only_without) = diff(&with, &without);
+        let (ikind, _, istable) = parse_index(index);
         let dk = if only_without.is_empty() && neg && only_with.iter().all(|u| null_uids.contains(u)) {
             // the suspected 3VL defect: the complement of an exact index answer contains the NULL rows
-            format!("{}/negation-over-indexed-nullable-column/extra-rows-all-null-in-column", parse_index(index).0)
+            "negation-over-indexed-nullable-column/index-returns-null-rows".to_string()
+        } else if ikind == "zonemap" && istable && only_with.is_empty() {
+            // the zone map answers in row addresses, which are not row ids on a stable-row-id table
+            "zonemap/stable-row-ids/index-drops-rows".to_string()
+        } else if ikind == "ngram" && only_with.is_empty() {
+            format!("ngram/contains-{}/index-drops-rows", q.lpred.as_ref().map(ngram_class).unwrap_or_default())
         } else {
             let kinds = match (only_with.is_empty(), only_without.is_empty()) {
                 (false, true) => if only_with.iter().all(|u| null_uids.contains(u)) { "index-adds-null-rows" } else { "index-adds-rows" },
@@ -559,6 +565,57 @@ async fn check_pred(ds: &Dataset, st: &State, fam: &str, index: &str, history: &
         Ok(n) if n == with.len() => {}
         Ok(n) => t.viol.push(Violation::new("count_rows", &format!("{index}/{fam}/count_rows-vs-scan/{shape}"), format!("count_rows({}) = {n} but the scan returns {} rows", q.sql, with.len()), case)),
         Err(e) => t.viol.push(Violation::new("count_rows", &format!("{index}/{fam}/count_rows-error/{shape}"), format!("count_rows({}) fails: {e}", q.sql), case)),
+    }
+}
+
+/// classes of the `contains` literals of a predicate (n-gram index)
+pub(crate) fn ngram_class(p: &LPred) -> String {
+    fn go(p: &LPred, out: &mut Vec<&'static str>) {
+        match p {
+            LPred::StrContains(s) => out.push(str_class(s)),
+            LPred::Not(a) => go(a, out),
+            LPred::And(a, b) | LPred::Or(a, b) => {
+                go(a, out);
+                go(b, out);
+            }
+            _ => {}
+        }
+    }
+    let mut v = vec![];
+    go(p, &mut v);
+    v.sort();
+    v.dedup();
+    // the plain class is uninformative next to another one
+    if v.len() > 1 {
+        v.retain(|c| *c != "plain");
+    }
+    v.join("+")
+}
+
+pub(crate) fn str_class(s: &str) -> &'static str {
+    if s.chars().count() < 3 {
+        "shorter-than-a-trigram"
+    } else if !s.is_ascii() {
+        "non-ascii"
+    } else if s.chars().any(|c| !c.is_ascii_alphanumeric()) {
+        "with-non-alphanumeric"
+    } else if s.chars().any(|c| c.is_ascii_uppercase()) {
+        "upper-case"
+    } else {
+        "plain"
+    }
+}
+
+/// a violation seen on the fresh index is the same violation after any history: merge those keys
+pub(crate) fn merge_history_keys(viol: &mut [Violation]) {
+    let is_hist = |h: &str| h == "fresh-index" || h.split('+').all(|p| ["Append", "Delete", "UpdateVal", "UpdateNull", "Compact", "CompactDefer", "Optimize", "OptimizeMerge"].contains(&p));
+    let fresh: std::collections::BTreeSet<String> = viol.iter().filter_map(|v| v.key.rsplit_once('/')).filter(|(_, h)| *h == "fresh-index").map(|(p, _)| p.to_string()).collect();
+    for v in viol.iter_mut() {
+        if let Some((p, h)) = v.key.rsplit_once('/') {
+            if is_hist(h) && fresh.contains(p) {
+                v.key = format!("{p}/with-or-without-history");
+            }
+        }
     }
 }
 
@@ -670,6 +727,7 @@ pub(crate) struct Plan {
     /// families on which depth-3 histories are run
     pub deep_fams: Vec<&'static str>,
     pub rule: &'static str,
+    pub quick_budget_s: f64,
 }
 
 pub(crate) fn fam_by_label(l: &str) -> ColFam {
@@ -700,7 +758,7 @@ pub fn run(ctx: &Ctx) -> Outcome {
     let all = fams();
     let mut combos: Vec<(ColFam, String)> = vec![];
     for f in &all {
-        let q_btree = ["int32", "float64", "bool", "timestamp_us"].contains(&f.label);
+        let q_btree = ["int32", "float64", "bool"].contains(&f.label);
         let q_bitmap = ["int32", "utf8"].contains(&f.label);
         if !quick || q_btree {
             combos.push((f.clone(), "btree".into()));
@@ -721,7 +779,6 @@ pub fn run(ctx: &Ctx) -> Outcome {
         let mut h = histories(&QUICK_OPS, 1);
         h.extend([
             vec![HOp::Append, HOp::Optimize],
-            vec![HOp::Append, HOp::Compact],
             vec![HOp::Delete, HOp::Compact],
             vec![HOp::UpdateNull, HOp::Optimize],
         ]);
@@ -741,6 +798,7 @@ pub fn run(ctx: &Ctx) -> Outcome {
         combos,
         histories: hs,
         deep_fams: vec!["int32", "utf8", "tags"],
+        quick_budget_s: 40.0,
         rule: "items = (column family, index kind, history); per item every predicate of the family (6 comparisons x domain/boundary/cross-type literals, BETWEEN, IN, IS [NOT] NULL, IS TRUE/FALSE, NOT, AND/OR pairs incl. an unindexed column; array_has_any/all/contains for label_list) is scanned with and without the index and counted. non-trivial = the model selects some but not all rows",
     };
     let mut out = run_plan(ctx, plan);
@@ -769,7 +827,7 @@ pub(crate) fn run_plan(ctx: &Ctx, plan: Plan) -> Outcome {
         items.rotate_left(ctx.seed as usize % n);
     }
     let n_items = items.len();
-    let budget = Budget::new(ctx.opts.get("budget").and_then(|b| b.parse().ok()).unwrap_or(ctx.tier.pick(40.0, 840.0)));
+    let budget = Budget::new(ctx.opts.get("budget").and_then(|b| b.parse().ok()).unwrap_or(ctx.tier.pick(plan.quick_budget_s, 840.0)));
     let results = vcore::par_map(items, ctx.workers, |_, (f, i, h)| {
         if budget.over() {
             return (f.label, i, h, Err("budget".to_string()));
@@ -825,6 +883,7 @@ pub(crate) fn run_plan(ctx: &Ctx, plan: Plan) -> Outcome {
     if !complete {
         out.set("cap_hit", "wall budget");
     }
+    merge_history_keys(&mut viol);
     out.violations = viol;
     out
 }
